@@ -1,11 +1,12 @@
 (* C04 — every recorded change can be replayed exactly; the recorded arrays stay aligned; a replace step
-   is undone exactly by its inverse and the inverse's map is the inverted map.
+   and a replace-around step (what lift and wrap are made of) are undone exactly by their inverses, and the
+   inverse's map is the inverted map.
    (Exact undo of the other step types and of whole histories is evaluated per case by Corr.C04.holds on
    the implementation's observations.) *)
 From Coq Require Import List ZArith.
 From PM Require Import Model.Data Model.Tree Model.StepMap Model.Step Model.Transform Spec.Tokens Proofs.TransformProofs
   Proofs.ReplaceValid Proofs.SliceSides Proofs.SliceShape Proofs.TokenLaws Proofs.StepTokens
-  Proofs.TokenInj Proofs.ReplaceCanon Proofs.DocEquality.
+  Proofs.TokenInj Proofs.ReplaceCanon Proofs.DocEquality Proofs.AroundUndo Proofs.AttrUndo Model.Resolve Model.Mark Proofs.MarkProofs.
 Import ListNotations.
 Local Open Scope nat_scope.
 
@@ -66,3 +67,66 @@ Theorem C04_replace_step_undo_gives_equal_document : forall s from to sl structu
   node_eqb d'' doc = true.
 Proof. exact replace_step_undo_eq. Qed.
 Print Assumptions C04_replace_step_undo_gives_equal_document.
+
+(* ------------------------------------------------------------------ replace-around steps (lift, wrap, set_node_markup)
+   for ANY valid document, range from <= gap_from <= gap_to <= to, slice (closed or open) and insert position
+   within it: if the step applies and gives a valid document, and its inverse (ReplaceAroundStep.invert, which cuts
+   the old range out of the ORIGINAL document and takes the gap out of it with Slice.remove_between) applies to
+   the result, then the document that comes back has exactly the original token sequence *)
+Theorem C04_around_step_undo : forall s from to gf gt sl ins structure doc d' inv d'',
+  check s doc = true -> check s d' = true ->
+  Shape s (sl_content sl) (sl_open_start sl) (sl_open_end sl) ->
+  from <= gf -> gf <= gt -> gt <= to -> ins <= length (IT s sl) ->
+  apply s (SReplaceAround from to gf gt sl ins structure) doc = ROk d' ->
+  invert_step s (SReplaceAround from to gf gt sl ins structure) doc = Ok inv ->
+  apply s inv d' = ROk d'' ->
+  DT s d'' = DT s doc.
+Proof. exact around_step_undo. Qed.
+Print Assumptions C04_around_step_undo.
+
+(* ... and its position map maps every position exactly as the inverted original map does *)
+Theorem C04_around_inverse_map : forall s from to gf gt sl ins structure doc inv,
+  Shape s (sl_content sl) (sl_open_start sl) (sl_open_end sl) ->
+  from <= gf -> gf <= gt -> gt <= to -> ins <= length (IT s sl) ->
+  invert_step s (SReplaceAround from to gf gt sl ins structure) doc = Ok inv ->
+  forall p a, map_result (get_map s inv) p a =
+              map_result (StepMap.invert (get_map s (SReplaceAround from to gf gt sl ins structure))) p a.
+Proof. exact around_step_inverse_map. Qed.
+Print Assumptions C04_around_inverse_map.
+
+(* ------------------------------------------------------------------ attribute steps
+   [NodeNormal n]: n's attributes are what its type's compute_attrs gives back for them (declared names, in
+   order, defaults filled in - true of every node the library's constructors and from_json build) and its marks
+   are rank-sorted. An AttrStep that applies, followed by the inverse AttrStep.invert builds from the ORIGINAL
+   document (same position and attribute, the old value), gives back exactly the original token sequence *)
+Theorem C04_attr_step_undo : forall s pos attr value doc d' inv d'',
+  check s doc = true -> check s d' = true ->
+  (forall n, node_at s (S (node_size s doc)) doc pos = Ok (Some n) -> NodeNormal s n) ->
+  apply s (SAttr pos attr value) doc = ROk d' ->
+  invert_step s (SAttr pos attr value) doc = Ok inv ->
+  apply s inv d' = ROk d'' ->
+  DT s d'' = DT s doc.
+Proof. exact attr_step_undo. Qed.
+Print Assumptions C04_attr_step_undo.
+
+(* a DocAttrStep and its inverse give back the very same document *)
+Theorem C04_doc_attr_step_undo : forall s attr value doc d' inv d'',
+  NodeNormal s doc ->
+  apply s (SDocAttr attr value) doc = ROk d' ->
+  invert_step s (SDocAttr attr value) doc = Ok inv ->
+  apply s inv d' = ROk d'' ->
+  d'' = doc.
+Proof. exact doc_attr_step_undo. Qed.
+Print Assumptions C04_doc_attr_step_undo.
+
+(* the hypotheses are met: wrapping the first paragraph of the example document of Properties/C01.v in a
+   blockquote (ReplaceAroundStep(0, 4, 0, 4, <blockquote()>, 1)) applies, gives a valid document, and the
+   inverse (the lift) applies to it *)
+From PM Require Properties.C01.
+Example C04_around_example :
+  let s := Properties.C01.ex_schema in let doc := Properties.C01.ex_doc in
+  let st := SReplaceAround 0 4 0 4 (SL [Elem 2%nat [] [] []] 0 0) 1 true in
+  exists d' inv d'',
+    check s doc = true /\ check s d' = true /\ apply s st doc = ROk d' /\ invert_step s st doc = Ok inv /\
+    apply s inv d' = ROk d'' /\ inv = SReplaceAround 0 6 1 5 (SL [] 0 0) 0 true.
+Proof. cbv zeta. eexists. eexists. eexists. repeat split; vm_compute; reflexivity. Qed.
